@@ -28,18 +28,22 @@ def quotient (x : Num) (res ofs : Lit) : Rat := pyDiv (subLit x ofs) (litNum res
 
 /-- **A number is encoded as the nearest tick, inside the representable range**: if encoding
 succeeds with `n`, then `n` is within half a step of the scaled value and the encoded integer, read
-back as a (signed) field value, lies in the representable interval — never wrapped, never clipped. -/
+back as a (signed) field value, lies in the representable interval — never wrapped, never clipped.
+The interval is that of the EFFECTIVE signedness (`effSigned`, see `C01_effSigned`): a field with an
+Offset is stored excess-K, i.e. unsigned whatever the database's Signed flag says. -/
 theorem C09_number_nearest_tick (x : Num) (len : Nat) (signed : Bool) (res ofs : Lit) (n : Int)
     (hl : 1 ≤ len) (hres : res.val ≠ 0)
     (h : encodeNumber (numVal x) len signed res ofs = .ok n) :
-    ∃ z : Int, |((z : Int) : Rat) - quotient x res ofs| ≤ 1 / 2 ∧ numLo len signed ≤ z ∧ z ≤ numHi len signed ∧
+    ∃ z : Int, |((z : Int) : Rat) - quotient x res ofs| ≤ 1 / 2 ∧
+      numLo len (effSigned signed ofs) ≤ z ∧ z ≤ numHi len (effSigned signed ofs) ∧
       contrib n len = contrib z len ∧ 0 ≤ n ∧ n < ((2 ^ len : Nat) : Int) := by
   exact Enc02.encodeNumber_nearest x len signed res ofs n hl hres h
 
 /-- **Out of range is rejected**: a value whose nearest tick is outside the representable interval
-is an error (one step beyond either end, far out, negative for unsigned). -/
+(of the effective signedness) is an error (one step beyond either end, far out, negative for unsigned). -/
 theorem C09_number_range_rejected (x : Num) (len : Nat) (signed : Bool) (res ofs : Lit) (hres : res.val ≠ 0)
-    (h : rhe (quotient x res ofs) < numLo len signed ∨ numHi len signed < rhe (quotient x res ofs)) :
+    (h : rhe (quotient x res ofs) < numLo len (effSigned signed ofs) ∨
+      numHi len (effSigned signed ofs) < rhe (quotient x res ofs)) :
     encodeNumber (numVal x) len signed res ofs = .error .range := by
   exact Enc02.encodeNumber_range_rejected x len signed res ofs hres h
 
@@ -55,7 +59,7 @@ theorem C09_absent (data off len : Nat) (signed : Bool) (res mn mx ofs : Lit) (n
     (h : encodeNumber .none len signed res ofs = .ok n)
     (hbits : Straight.decode_int data off len = contrib n len) :
     decodeNumber data off len signed res mn mx ofs = .ok none := by
-  exact Enc02.absent_dec data off len signed res mn mx ofs n hl hs h hbits
+  exact Enc02.absent_dec data off len signed res mn mx ofs n hl (fun h' => hs (Dec01.effSigned_le _ _ h')) h hbits
 
 /-- **A missing field is an error**: if some step of the encoder names a field the message does not
 have, encoding fails (with the missing-field error or an earlier one) — never a payload. -/
@@ -90,9 +94,26 @@ known findings): a LOOKUP / DATE raw or a RESERVED value in `0 ≤ v < 2^len` is
 theorem C09_raw_exact_partial (v : Nat) (len : Nat) (hfit : v < 2 ^ len) : contrib (v : Int) len = v := by
   exact Enc02.ctr_nat v len hfit
 
+/-- **A DATE given by value** (no raw value): a day count outside `0 .. 2^bits − 2` is rejected, one inside is
+stored unchanged (the top code is "not available") — never masked -/
+theorem C09_date_value (env : Env) (fm : FieldMeta) (d : Int) (bits : Nat) :
+    encValue env ⟨fm, .date d, .none⟩ (.date bits) =
+      if d < 0 ∨ d > ((2 ^ bits : Nat) : Int) - 2 then .error .range else .ok d := rfl
+
 -- witness of the gap (documented as a known finding): a RESERVED value that does not fit is wrapped
 example : contrib 300 8 = 44 := by decide
 -- non-vacuity of C09_number_range_rejected: 655.35 V does not fit 16 bits at 0.01 V (signed)
 example : encodeNumber (.flt (rne (65535 / 100))) 16 true ⟨1, -2, true⟩ (Lit.ofInt 0) = .error .range := by decide +kernel
+
+-- the power fields (32 bits, offset -2000000000, database flag Signed) are encoded excess-K over the whole
+-- database range: the maximum 2294967292 W is raw 0xFFFFFFFC, 147483648 W is raw 0x80000000; one step beyond
+-- either end of the representable interval 0 .. 0xFFFFFFFE is rejected (the reserved codes 0xFFFFFFFD/E above
+-- the database maximum are still accepted: the known finding named in the header)
+example : encodeNumber (.int 2294967292) 32 true (Lit.ofInt 1) (Lit.ofInt (-2000000000)) = .ok 0xFFFFFFFC := by decide +kernel
+example : encodeNumber (.int 147483648) 32 true (Lit.ofInt 1) (Lit.ofInt (-2000000000)) = .ok 0x80000000 := by decide +kernel
+example : encodeNumber (.int (-2000000000)) 32 true (Lit.ofInt 1) (Lit.ofInt (-2000000000)) = .ok 0 := by decide +kernel
+example : encodeNumber (.int 2294967295) 32 true (Lit.ofInt 1) (Lit.ofInt (-2000000000)) = .error .range := by decide +kernel
+example : encodeNumber (.int (-2000000001)) 32 true (Lit.ofInt 1) (Lit.ofInt (-2000000000)) = .error .range := by decide +kernel
+example : encodeNumber .none 32 true (Lit.ofInt 1) (Lit.ofInt (-2000000000)) = .ok 0xFFFFFFFF := by decide +kernel
 
 end N2k
